@@ -38,6 +38,10 @@ class Event(object):
         self.ghost = dict(ghost or {})
         self.lineno = lineno
         self.recv = recv
+        self.key = None
+        self.full = name
+        self.raised = None
+        self.quant = None
 
     def __repr__(self):
         return 'Event(%s@%s)' % (self.name, self.lineno)
@@ -59,6 +63,10 @@ class State(object):
         self.depth = 0
         self.handlers = 0
         self.notes = []
+        self.qidx = None
+        self.qinfo = None
+        self.ofields = {}      # opaque-object fields: attr -> closure(z3 Obj term) -> Value
+        self.epoch = 0
 
     def fork(self):
         s = State.__new__(State)
@@ -76,6 +84,10 @@ class State(object):
         s.depth = self.depth
         s.handlers = self.handlers
         s.notes = list(self.notes)
+        s.qidx = self.qidx
+        s.qinfo = self.qinfo
+        s.ofields = dict(self.ofields)
+        s.epoch = self.epoch
         return s
 
     def assume(self, c):
@@ -170,6 +182,9 @@ class Executor(object):
         """fresh symbolic value of union-free type `ty`; side facts go to st.pc."""
         ty = parse_type(ty)
         k = ty.kind
+        if not idx and getattr(st, 'qidx', None) is not None and k not in ('obj',):
+            # inside the generic iteration of a comprehension: results are functions of the iteration index
+            return self._fresh_fn(st, ty, name, (st.qidx,), {})
         if k in ('int', 'real', 'bool', 'str'):
             sort = {'int': z3.IntSort(), 'real': z3.RealSort(), 'bool': z3.BoolSort(), 'str': z3.StringSort()}[k]
             if idx:
@@ -238,7 +253,7 @@ class Executor(object):
                     'blob': BlobSort}[k]
             key = (name, k)
             if key not in cache:
-                cache[key] = z3.Function(uid(name), *([z3.IntSort()] * len(idx) + [sort]))
+                cache[key] = z3.Function(uid(name), *([x.sort() for x in idx] + [sort]))
             t = cache[key](*idx)
             if k in ('int', 'nat'):
                 return VInt(t)
@@ -711,10 +726,66 @@ class Executor(object):
                 if full in self.B.EXTERNS:
                     return [(st, VFunc('builtin', self.B.EXTERNS[full], name=full))]
                 return [(st, VFunc('extern', full, name=full))]
+        if isinstance(v, VOpaque):
+            return [(st, self.opaque_field(st, v, attr, node))]
         # methods on builtin values
-        if isinstance(v, (VSeq, VStr, VDict, VBlob, VInt, VReal, VOpaque)):
+        if isinstance(v, (VSeq, VStr, VDict, VBlob, VInt, VReal)):
             return [(st, VFunc('method', attr, selfv=v, name=attr))]
         raise Unsupported('attribute .%s on %r (line %s)' % (attr, v, getattr(node, 'lineno', '?')))
+
+    def opaque_field(self, st, v, attr, node=None):
+        """attribute of an opaque object.  Declared in the target's `opaque_fields` -> typed value given by an
+        uninterpreted function of (object, epoch) plus the writes made on this path; otherwise a bound opaque
+        method/attribute (VFunc 'omethod') that becomes an opaque call when called."""
+        tgt = self.cur_target or {}
+        decl = tgt.get('opaque_fields', {})
+        if attr not in decl:
+            # undeclared attribute: an unknown value (it may be falsy, it may be callable).  It is a function of the
+            # object and the epoch, so two reads without an intervening opaque call agree.
+            cache = self.__dict__.setdefault('_ofield_cache', {})
+            c = cache.setdefault(('$attr', attr, st.epoch), {})
+            val = self._fresh_fn(st, 'opaque', 'attr_%s@%d' % (attr, st.epoch), (v.t,), c)
+            val.bound_self = v
+            val.attr = attr
+            return val
+        f = st.ofields.get(attr)
+        if f is None:
+            f = self._ofield_base(st, attr, decl[attr])
+            st.ofields[attr] = f
+        return f(v.t)
+
+    def _ofield_base(self, st, attr, ty):
+        cache = self.__dict__.setdefault('_ofield_cache', {})
+        key = (attr, st.epoch if attr not in (self.cur_target or {}).get('stable_fields', ()) else 0)
+        ex = self
+
+        def base(o, _key=key, _ty=ty):
+            c = cache.setdefault(_key, {})
+            return ex._fresh_fn(st, _ty, 'fld_%s@%d' % _key, (o,), c)
+        return base
+
+    def opaque_setattr(self, st, v, attr, val):
+        tgt = self.cur_target or {}
+        decl = tgt.get('opaque_fields', {})
+        if attr not in decl:
+            # untracked attribute: remember nothing (reads give an opaque method/attr)
+            st.trace.append(Event('setattr:' + attr, [v, val], {}, None, dict(st.ghost), 0, recv=v))
+            return
+        old = st.ofields.get(attr) or self._ofield_base(st, attr, decl[attr])
+        tgt_t = v.t
+
+        def upd(o, _old=old, _t=tgt_t, _val=val):
+            return ite(o == _t, _val, _old(o))
+        st.ofields[attr] = upd
+        st.trace.append(Event('setattr:' + attr, [v, val], {}, None, dict(st.ghost), 0, recv=v))
+
+    def havoc_opaque_fields(self, st):
+        """an opaque callee may have mutated any opaque object: forget the tracked fields (except `stable_fields`)"""
+        st.epoch += 1
+        stable = (self.cur_target or {}).get('stable_fields', ())
+        for a in list(st.ofields):
+            if a not in stable:
+                del st.ofields[a]
 
     def module_attr(self, st, modname, attr):
         full = '%s.%s' % (modname, attr)
@@ -853,30 +924,70 @@ class Executor(object):
                     for s3, acc in outs:
                         res.append((s3, VSeq(acc, kind='list')))
                 else:
-                    if g.ifs:
-                        raise Unsupported('filtered comprehension over a symbolic sequence')
-                    # lambda sequence: element i is elt[target := sq[i]]  (element expression must be total)
-                    env0 = dict(s2.env)
-                    pcs = list(s2.pc)
-
-                    def elem(i, sq=sq, env0=env0, s2=s2):
-                        sub = s2.fork()
-                        sub.env = dict(env0)
-                        sub.spec = True
-                        self.assign_target(sub, g.target, sq.elem(i))
-                        return self.ev1(sub, node.elt)
-                    # totality of the element expression is checked on a generic index
-                    gi = z3.Int(uid('ci'))
-                    chk = s2.fork()
-                    chk.assume(z3.And(gi >= 0, gi < sq.length()))
-                    self.assign_target(chk, g.target, sq.elem(gi))
-                    for s3, ev in self.ev(chk, node.elt):
-                        if isinstance(ev, Raised):
-                            s3.env = env0
-                            res.append((s3, ev))
-                    res.append((s2, VSeq(length=sq.length(), elem=elem, kind='list')))
+                    res.extend(self.comprehension_symbolic(s2, node, g, sq))
             return res
         return self.bind(self.ev(st, g.iter), k)
+
+    def comprehension_symbolic(self, s2, node, g, sq):
+        """comprehension over a sequence of symbolic length: ONE generic iteration (index gi) is executed; the
+        result is the lambda-sequence i -> elt[gi := i]; opaque calls made by the element expression become
+        quantified events ("for every i in range with the filter true"); facts learnt about the generic iteration
+        are universally quantified.  A filter (`if`) makes the result a filtered view (usable by all()/any() and as
+        an opaque argument)."""
+        from .values import subst_value
+        env0 = dict(s2.env)
+        gi = z3.Int(uid('ci'))
+        chk = s2.fork()
+        rng = z3.And(gi >= 0, gi < sq.length())
+        chk.assume(rng)
+        npc = len(chk.pc)
+        chk.qidx = gi
+        n0 = len(chk.trace)
+        e0 = chk.epoch
+        self.assign_target(chk, g.target, sq.elem(gi))
+        keep = z3.BoolVal(True)
+        for cnd in g.ifs:
+            couts = self.ev(chk, cnd)
+            if len(couts) != 1 or isinstance(couts[0][1], Raised) or couts[0][0] is not chk:
+                raise Unsupported('comprehension filter must be a simple total expression')
+            keep = z3.And(keep, self.truth(chk, couts[0][1]))
+        chk.assume(keep)
+        chk.qinfo = (gi, sq.length(), keep)
+        outs = self.ev(chk, node.elt)
+        normal = [(s3, v) for s3, v in outs if not isinstance(v, Raised)]
+        raised = [(s3, v) for s3, v in outs if isinstance(v, Raised)]
+        res = []
+        for s3, v in raised:
+            sr = s2.fork()
+            for ev_ in s3.trace[n0:]:
+                ev_.quant = (gi, sq.length(), keep)
+                sr.trace.append(ev_)
+            sr.pc = list(s3.pc)       # some iteration gi raised
+            sr.env = dict(env0)
+            res.append((sr, v))
+        if len(normal) != 1:
+            if not normal:
+                return res
+            raise Unsupported('comprehension element expression forks (%d outcomes)' % len(normal))
+        s3, v = normal[0]
+        facts = s3.pc[npc:]
+        if facts:
+            body = z3.And(facts) if len(facts) > 1 else facts[0]
+            s2.assume(z3.ForAll([gi], z3.Implies(rng, body)))
+        for ev_ in s3.trace[n0:]:
+            ev_.quant = (gi, sq.length(), keep)
+            s2.trace.append(ev_)
+        if s3.epoch != e0:
+            self.havoc_opaque_fields(s2)
+        s2.env = dict(env0)
+
+        def elem(i, v=v, gi=gi):
+            return subst_value(v, gi, i)
+        out = VSeq(length=sq.length(), elem=elem, kind='list')
+        if g.ifs:
+            out.keep = lambda i, keep=keep, gi=gi: z3.substitute(keep, (gi, i))
+        res.append((s2, out))
+        return res
 
     def _restore_comp_env(self, s, saved, target):
         for n in ast.walk(target):
@@ -1016,6 +1127,9 @@ class Executor(object):
                 for s2, _ in outs:
                     s2.env, s2.module = dict(saved), smod
                 return outs
+            if fv.kind == 'omethod':
+                return self.opaque_call(st, self.describe_callee(node) if node is not None else fv.target, fv.selfv,
+                                        args, kwargs, node)
             if fv.kind == 'exc':
                 return [(st, VFunc('excinst', (fv.target, args), name=fv.target))]
             if fv.kind == 'class':
@@ -1026,7 +1140,11 @@ class Executor(object):
                 fi, env = fv.target
                 return self.call_function(st, fi, list(args), kwargs, node, closure_env=env)
         if isinstance(fv, VOpaque):
-            return self.opaque_call(st, self.describe_callee(node), fv, args, kwargs, node)
+            recv = getattr(fv, 'bound_self', None)
+            name = self.describe_callee(node) if node is not None else getattr(fv, 'attr', 'call')
+            if getattr(fv, 'attr', None) and not name.endswith(fv.attr):
+                name = fv.attr
+            return self.opaque_call(st, name, recv if recv is not None else fv, args, kwargs, node)
         raise Unsupported('call of %r (line %s)' % (fv, getattr(node, 'lineno', '?')))
 
     def describe_callee(self, node):
@@ -1229,33 +1347,56 @@ class Executor(object):
             st.heap[obj.ref][field] = self.fresh(st, expand_unions(parse_type(ty))[0], '%s.%s' % (base, field))
 
     def opaque_call(self, st, name, recv, args, kwargs, node, key=None):
-        """unknown callee: fresh result, may raise (if declared), appended to the ghost trace."""
+        """unknown callee: fresh result, may raise (if declared), appended to the ghost trace.
+        opaque_spec entry keys: returns (type), raises ([exc]), always_raises (exc), pure (bool: does not mutate
+        opaque objects), fields ({attr: 'argN' | spec}) (attributes of the result set from arguments), effect."""
         tgt = self.cur_target or {}
         self.used_opaque.add(key or name)
         spec = None
-        for k in (key, name, name.split('.')[-1]):
+        short = name.split('(')[0].split('.')[-1]
+        for k in (key, name, short):
             if k is not None and k in tgt.get('opaque_spec', {}):
                 spec = tgt['opaque_spec'][k]
                 break
         spec = spec or {}
+        lineno = getattr(node, 'lineno', 0)
+        if spec.get('always_raises'):
+            ev = Event(short, args, kwargs, None, dict(st.ghost), lineno, recv=recv)
+            ev.key, ev.full, ev.raised = key, name, spec['always_raises']
+            st.trace.append(ev)
+            cur = st.ghost.get('$handling')
+            if spec['always_raises'] == 'reraise' and cur is not None:
+                return [(st, cur)]
+            return [(st, Raised(spec['always_raises'], note='from opaque %s' % name))]
         rty = spec.get('returns', 'opaque')
         outs = []
         for t in expand_unions(parse_type(rty)):
             s2 = st.fork()
-            res = self.fresh(s2, t, 'r_' + name.split('.')[-1])
-            ev = Event(name, args, kwargs, res, dict(s2.ghost), getattr(node, 'lineno', 0), recv=recv)
-            ev.key = key
+            if not spec.get('pure'):
+                self.havoc_opaque_fields(s2)
+            res = self.fresh(s2, t, 'r_' + short)
+            ev = Event(short, args, kwargs, res, dict(s2.ghost), lineno, recv=recv)
+            ev.key, ev.full = key, name
+            ev.quant = getattr(s2, 'qinfo', None)
             s2.trace.append(ev)
             for m in spec.get('havoc', []):
                 self.havoc_path(s2, m, recv, args)
+            for attr, src in spec.get('fields', {}).items():
+                base = res.val if isinstance(res, VOpt) else res
+                if isinstance(base, VOpaque):
+                    val = args[int(src[3:])] if src.startswith('arg') and len(args) > int(src[3:]) else \
+                        kwargs.get(src, NONE)
+                    self.opaque_setattr(s2, base, attr, val)
+                    s2.trace.pop()      # constructor field initialisation is not an observable event
             if 'effect' in spec:
                 spec['effect'](self, s2, ev)
             outs.append((s2, res))
         for exc in spec.get('raises', tgt.get('opaque_raises', [])):
             s2 = st.fork()
-            ev = Event(name, args, kwargs, None, dict(s2.ghost), getattr(node, 'lineno', 0), recv=recv)
-            ev.key = key
+            ev = Event(short, args, kwargs, None, dict(s2.ghost), lineno, recv=recv)
+            ev.key, ev.full = key, name
             ev.raised = exc
+            ev.quant = getattr(s2, 'qinfo', None)
             s2.trace.append(ev)
             outs.append((s2, Raised(exc, note='from opaque %s' % name)))
         return outs
@@ -1525,6 +1666,18 @@ class Executor(object):
             return res
         if isinstance(tgt, ast.Attribute):
             def k(s, base):
+                if isinstance(base, VOpaque):
+                    self.opaque_setattr(s, base, tgt.attr, v)
+                    return [(s, None)]
+                if isinstance(base, VOpt) and isinstance(base.val, VOpaque):
+                    res_ = []
+                    for s2_, b_ in self.branch(s, base.isnone):
+                        if b_:
+                            res_.append((s2_, Raised('AttributeError', note='None.%s = ...' % tgt.attr)))
+                        else:
+                            self.opaque_setattr(s2_, base.val, tgt.attr, v)
+                            res_.append((s2_, None))
+                    return res_
                 if not isinstance(base, VObj):
                     raise Unsupported('attribute assignment on %r' % (base,))
                 if base.cls.startswith('$'):
